@@ -392,6 +392,16 @@ class OnnxFunction(Op, Generic[_P, _R]):
 
         # Duplicate the graph to create the model
         main_graph = self.function_ir.graph.clone()
+        # A model has no attribute parameters: bind every reference to an attribute
+        # parameter of this function to the parameter's default value.
+        attr_defaults = {attr.name: attr for attr in self.function_ir.attrs}
+        for node in ir.traversal.RecursiveGraphIterator(main_graph):
+            for attr_name, attr in list(node.attributes.items()):
+                ref_name = attr.ref_attr_name
+                if ref_name is not None and ref_name in attr_defaults:
+                    node.attributes[attr_name] = ir.Attr(
+                        attr_name, attr.type, attr_defaults[ref_name].value
+                    )
         # Determine opset imports
         opset_imports = main_graph.opset_imports.copy()
 
